@@ -11,7 +11,7 @@ clock advances.  `noWrap`: times stay below the uint32 horizon of
 wraps around, which is outside these theorems.
 Concurrent logins racing between `check` and `inc` are outside the model.
 -/
-import AGH.Lemmas.AuthHorizon
+import AGH.Lemmas.AuthConc
 namespace AGH.C12
 
 /-- **The model meets the spec**: for every configuration and every timed
@@ -280,6 +280,49 @@ theorem C12_restart_equiv (st : St) (now tok : Nat) (hmd : ∀ t, st.mem t = st.
     · simp [Option.filter, hexp]
     · simp only [Option.filter, hexp, decide_false, Bool.not_false, if_true, if_false]
       constructor <;> intro _ <;> split <;> rfl
+
+/-! ### simultaneous logins: handlers run under controlLock -/
+
+/-- **Logins are serialised by controlLock.**  N login requests in flight at one
+instant, each in two steps (ask the limiter; evaluate the password and count /
+clear), their handlers running under one lock taken before the first and
+released after the second step (the fact `C12.loginlock` of the tie): for
+EVERY schedule of steps — requests that find the lock taken simply wait —
+whenever no handler is between its steps the state and every answer given so
+far are exactly those of the sequential history of the same requests in the
+order in which their handlers started.  Hence `C12_threshold_run` and the
+other history theorems apply to concurrent bursts. -/
+theorem C12_logins_serialised_under_lock (st : St) (now : Nat) (job : Nat → Job) (sched : List Nat) :
+    let c := sched.foldl (stepT true now job) (Conc.init st)
+    c.order.Nodup ∧ (∀ i, c.pc i = 0 ↔ i ∉ c.order) ∧
+    (c.holder = none →
+      c.st = (seqLogins now job st c.order).1 ∧
+      ∀ i ∈ c.order, c.res i = (seqLogins now job st c.order).2 i) := by
+  intro c
+  have hinv : LockInv now job st c := by
+    have : ∀ (sched : List Nat) (c0 : Conc), LockInv now job st c0 →
+        LockInv now job st (sched.foldl (stepT true now job) c0) := by
+      intro sched
+      induction sched with
+      | nil => intro c0 h; exact h
+      | cons i rest ih => intro c0 h; exact ih _ (lockInv_step h i)
+    exact this sched _ (lockInv_init now job st)
+  exact ⟨hinv.nodup, hinv.started, fun hf => ⟨(hinv.free hf).2.1, (hinv.free hf).2.2⟩⟩
+
+/-- **Without the lock the limit can be overrun** (limit 2, three wrong
+passwords from one address at the same instant): if all three ask the limiter
+before any failure is counted, all three passwords are evaluated (3 × 403),
+whereas every sequential order evaluates two and rejects the third. -/
+theorem C12_logins_unserialised_without_lock :
+    let job : Nat → Job := fun _ => ⟨⟨0, none, false⟩, false, 0⟩
+    let t := 946684800 * nsPerSec
+    let c := [0, 1, 2, 0, 1, 2].foldl (stepT false t job) (Conc.init (St.init 2 15 3600))
+    let s := seqLogins t job (St.init 2 15 3600) [0, 1, 2]
+    (c.res 0, c.res 1, c.res 2) = (some .forbidden, some .forbidden, some .forbidden) ∧
+    (s.2 0, s.2 1, s.2 2) = (some .forbidden, some .forbidden, some (.tooMany 900)) ∧
+    -- the same schedule under the lock: the requests that find it taken wait
+    ([0, 1, 2, 0, 1, 2].foldl (stepT true t job) (Conc.init (St.init 2 15 3600))).order = [0, 1] := by
+  decide
 
 /-! ### logout is two steps; other goroutines run in between -/
 
